@@ -83,6 +83,7 @@ var c09Types = []fbb.MsgType{fbb.Private, fbb.Service, fbb.Inquiry, fbb.Position
 var c09Bodies = []string{
 	"Hello world\r\n", "x", "line one\r\nline two\r\n\r\nline four\r\n", "no final newline", "Blåbær æøå ÿ\r\n", strings.Repeat("L", 998) + "\r\n", "",
 	"ends with CR\r", "\r\n\r\n",
+	strings.Repeat("a line of thirty-two characters\r\n", 2048) + "and a little more than 64 KiB\r\n", // the Body header needs more than 16 bits
 }
 
 var c09Datas = [][]byte{
